@@ -32,6 +32,12 @@ def gen_case(rng):
     r3 = random.Random(case["seed"] ^ 0x7AB1E)
     if r3.random() < 0.3 and case["steps"] >= 4:
         case["table_edit"] = {"step": r3.randint(2, case["steps"] - 2), "name": r3.choice(adds)["name"], "interval": r3.choice([1, 2, 3, 5])}
+        for s_ in range(case["steps"]):
+            tb, _ = model_table(case, s_)
+            due_ = [e for e in tb if s_ % e["interval"] == 0]
+            if due_ and sum(e["weight"] for e in due_) == 0:
+                del case["table_edit"]      # the property's side condition: the due weights are not all zero (on any step)
+                break
     if cycles >= 2 and rng.random() < 0.3:
         # the documented dynamic use: the consumer of the step generator changes a weight between two moves of the LAST step
         case["edit"] = {"after": rng.randint(0, cycles - 2), "name": rng.choice(adds)["name"], "weight": rng.choice([0, 0, 0, 1, 64])}
